@@ -1,6 +1,6 @@
 (* Property C17 — Gumbel sampling returns valid, correctly distributed samples. *)
 From Coq Require Import String Reals List Bool ZArith.
-From TLX Require Import Model.Relax Model.Domain Gen.Guards Proofs.RelaxFacts Proofs.C17Facts Proofs.C19Facts Proofs.C09Facts Gen.Sampling.
+From TLX Require Import Model.Relax Model.Domain Gen.Guards Proofs.RelaxFacts Proofs.C17Facts Proofs.C19Facts Proofs.C09Facts Gen.Sampling Proofs.GumbelRace.
 From TLX Require Import Model.Poly Gen.Ops.
 Import ListNotations.
 Local Open Scope R_scope.
@@ -50,6 +50,15 @@ Theorem C17_sampling_source : sampling_source_matches = true /\ gumbel_sigmoid_c
   /\ gumbel_hard_gate_from_perturbed_logits = true.
 Proof. repeat split; reflexivity. Qed.
 
+(* raw Gumbel modes: z_i = w_i - ln e_i with e_i the exponential draw; the gate with the largest z is the winner of the exponential race
+   with rates exp(w_i), for every draw, and the temperature does not change the winner (P(winner = k) = softmax(w)_k is the textbook
+   property of independent exponential clocks: trusted, like the distribution of the draws) *)
+Theorem C17_gumbel_race : forall wi wj ei ej, 0 < ei -> 0 < ej ->
+  (gumbel_z wj ej < gumbel_z wi ei <-> ei / exp wi < ej / exp wj).
+Proof. exact gumbel_race. Qed.
+Theorem C17_gumbel_race_temperature : forall zi zj tau, 0 < tau -> (zj / tau < zi / tau <-> zj < zi).
+Proof. exact gumbel_race_temperature. Qed.
+
 Eval compute in "PA:C17_range"%string. Print Assumptions C17_range.
 Eval compute in "PA:C17_hard_values"%string. Print Assumptions C17_hard_values.
 Eval compute in "PA:C17_hard_event"%string. Print Assumptions C17_hard_event.
@@ -61,3 +70,5 @@ Eval compute in "PA:C17_layer_hard_single_gate"%string. Print Assumptions C17_la
 Eval compute in "PA:C17_layer_soft_mixture"%string. Print Assumptions C17_layer_soft_mixture.
 Eval compute in "PA:C17_sampling_source"%string. Print Assumptions C17_sampling_source.
 Eval compute in "PA:C17_hard_threshold_outside"%string. Print Assumptions C17_hard_threshold_outside.
+Eval compute in "PA:C17_gumbel_race"%string. Print Assumptions C17_gumbel_race.
+Eval compute in "PA:C17_gumbel_race_temperature"%string. Print Assumptions C17_gumbel_race_temperature.
